@@ -330,6 +330,29 @@ func (s *tcSim) drain(tm *TransferManager, got *[]bpv7.Bundle, errs *[]error) {
 	}
 }
 
+// stepBound: every segment and its acknowledgement cross the wire once; four times that plus slack is the
+// point at which a transfer is called endless (a 5 kB bundle in 1-byte segments legitimately needs > 10000 steps)
+func (s *tcSim) stepBound() int {
+	need := 0
+	for _, tb := range s.bundles {
+		m := int(s.m)
+		if tb.dir == "b2a" && s.c.CfgInt("m_b", 0) > 0 {
+			m = s.c.CfgInt("m_b", m)
+		}
+		if m < 1 {
+			m = 1
+		}
+		if m > 1<<20 {
+			m = 1 << 20
+		}
+		need += (len(tb.wire) + m - 1) / m
+	}
+	if b := 8*need + 2000; b > 60000 {
+		return b
+	}
+	return 60000
+}
+
 func (s *tcSim) settle() {
 	for {
 		synctest.Wait()
@@ -338,8 +361,8 @@ func (s *tcSim) settle() {
 			return
 		}
 		s.steps++
-		if s.steps > 60000 {
-			s.res.Violate("C11", "terminates", "transfer-does-not-terminate", "more than 60000 wire steps (segment size %d)", s.m)
+		if s.steps > s.stepBound() {
+			s.res.Violate("C11", "terminates", "transfer-does-not-terminate", "more than %d wire steps (segment size %d)", s.stepBound(), s.m)
 			s.sched.SetFree(true)
 			for _, t := range parked {
 				s.sched.Release(t, nil)
